@@ -470,7 +470,20 @@ func runC20(c *Ctx) {
 		}
 		ws := c.NewWorkspace(files)
 		defer ws.Remove()
-		srv, err := StartServer(ServerOpts{Root: ws.Root, Tag: fmt.Sprintf("c20b%d", bi)})
+		// a third of the batches run with exactly one of the ten checks switched off by the client's settings: that check
+		// reports nothing, every other check reports what it reports with all checks on
+		off := 0
+		init := allOnInit()
+		if ro := root.Fork(uint64(5000000 + bi)); ro.Chance(1, 3) {
+			off = c20Types[ro.Intn(len(c20Types))]
+			init[checkFlagNames[off]] = false
+			c.Count("batches_with_one_check_off", 1)
+		}
+		offLabel := ""
+		if off != 0 {
+			offLabel = fmt.Sprintf("|check-%d-off", off)
+		}
+		srv, err := StartServer(ServerOpts{Root: ws.Root, Init: init, Tag: fmt.Sprintf("c20b%d", bi)})
 		if err != nil {
 			c.Inconclusive("server failed (C01's business): " + err.Error())
 			if srv != nil {
@@ -499,6 +512,9 @@ func runC20(c *Ctx) {
 						c.Count("dont_care_expectations", 1)
 						continue
 					}
+					if t == off {
+						want = 0
+					}
 					c.Count("expectations_checked", 1)
 					if want > 0 {
 						c.Count("must_expectations", 1)
@@ -511,8 +527,8 @@ func runC20(c *Ctx) {
 						if counts[t] > want {
 							kind = "extra"
 						}
-						c.Report(fmt.Sprintf("pattern|type%d|%s|%s", t, kind, st.Label),
-							fmt.Sprintf("site %q (%s) in %s line %d: expected %d diagnostics of type %d, got %d", st.Text, st.Label, rel, ln, want, t, counts[t]),
+						c.Report(fmt.Sprintf("pattern|type%d|%s|%s%s", t, kind, st.Label, offLabel),
+							fmt.Sprintf("site %q (%s%s) in %s line %d: expected %d diagnostics of type %d, got %d", st.Text, st.Label, offLabel, rel, ln, want, t, counts[t]),
 							map[string]interface{}{"file": files[rel], "line": ln, "site": st.Text, "label": st.Label})
 					}
 				}
